@@ -51,7 +51,8 @@ class ListWrapper(RandomSource):
         e = self.randint(1, 10)
         k = pow(b, e)
         v = 1 * (max - min) / k + min
-        return v
+        # (min + (max - min) can round above max)
+        return max if v > max else v
 
 
 def add_to_stacks(stacks: dict[type, list[Any]], t: type, v: Any):
